@@ -58,6 +58,8 @@ pub struct Model {
     /// the allocator position as cyclic allocation 1..=window implies (0 after the window's last id)
     pub alloc_pos: u16,
     pub last_done: u16,
+    /// id of the last publish a PUBACK completed (0: none yet) — base of the G11M region rule
+    pub last_acked1: u16,
     /// C11: the history so far is one for which the statement promises send order
     pub order_armed: bool,
 }
@@ -85,6 +87,9 @@ pub struct Stats {
     pub fails: u64,
     pub fail_resumed_unacked: u64,
     pub fail_wrapped2: u64,
+    /// G11M order checks with >= 2 QoS 1 publishes whose ids wrapped while QoS 2 traffic was mixed in
+    pub order_checks_mixed2: u64,
+    pub saw_qos2: bool,
     pub replayed: u64,
     pub in_qos2_flows: u64,
     pub rejected_acks: u64,
@@ -154,6 +159,7 @@ impl Run {
                 last_alloc: 0,
                 alloc_pos: 0,
                 last_done: 0,
+                last_acked1: 0,
                 order_armed: !case.v5,
             },
             pending: VecDeque::new(),
@@ -427,15 +433,45 @@ impl Run {
         if !self.on(G11) || !self.m.order_armed {
             return Ok(());
         }
+        let mixed = self.on(G11M);
+        if mixed {
+            // Region rule (K9 family): rotating at "last PUBACK + 1" is the send order only while
+            // every id handed out since that PUBACK is still held. Completed QoS 2 flows consume
+            // ids without holding them, exactly like SUBSCRIBE does. The order is asserted when the
+            // held ids, in send order, increase cyclically from the id after the last PUBACK.
+            let m = self.m.limit as u32;
+            let base = self.m.last_acked1 as u32 + 1;
+            let offs: Vec<u32> =
+                self.m.live.iter().filter(|e| e.st != St::Blocked).map(|e| (e.pkid as u32 + m - base) % m).collect();
+            if offs.windows(2).any(|w| w[0] >= w[1]) {
+                if self.cfg.excluded(R_K9) {
+                    self.exclude(R_K9);
+                    return Ok(());
+                }
+            }
+        }
         self.st.order_checks += 1;
         let got: Vec<u32> = reqs
             .iter()
             .filter_map(|r| match r {
-                NReq::Publish(p) => p.serial,
+                NReq::Publish(p) if !mixed || p.qos == 1 => p.serial,
                 _ => None,
             })
             .collect();
-        let want: Vec<u32> = self.m.live.iter().filter(|e| e.st == St::InFlight).map(|e| e.serial).collect();
+        let want: Vec<u32> = self
+            .m
+            .live
+            .iter()
+            .filter(|e| e.st == St::InFlight && (!mixed || e.qos == 1))
+            .map(|e| e.serial)
+            .collect();
+        if mixed && want.len() >= 2 && self.st.saw_qos2 {
+            let ids1: Vec<u16> =
+                self.m.live.iter().filter(|e| e.st == St::InFlight && e.qos == 1).map(|e| e.pkid).collect();
+            if ids1.windows(2).any(|w| w[0] > w[1]) {
+                self.st.order_checks_mixed2 += 1;
+            }
+        }
         let mut a = got.clone();
         let mut b = want.clone();
         a.sort_unstable();
